@@ -101,7 +101,8 @@ def check(out: Outcome, p: dict, xs: list, runners: list, label: str = "") -> No
         hist.append(float(x))
         rep = {"class": "ADWIN", "params": p, "stream": xs[:t], "step": t}
         if r.err is not None:
-            kf = "KF-C05-1" if (isinstance(r.err, ValueError) and "total" in str(r.err)) else None
+            # the recorded finding is identified by the failing history (a ValueError exactly where the model, which carries that behaviour, raises), not by the message
+            kf = "KF-C05-1" if (isinstance(r.err, ValueError) and dets.model_raises_at_end("ADWIN", p, xs[:t])) else None
             if kf and kf in out.findings:
                 out.findings[kf].hits += 1
             else:
@@ -281,7 +282,8 @@ def run(out: Outcome) -> None:
     for x in [0.3, 0.1, 0.5, 0.2, 0.9, 0.4]:
         d.update(value=x)
     if (int(d.num_buckets), int(d.num_max_buckets)) != (7, 6):
-        out.violation(f"ADWIN: after six updates (num_buckets, num_max_buckets) = {(int(d.num_buckets), int(d.num_max_buckets))}, proved for the model: (7, 6)",
+        # a fact about the MODEL's counters (no clause of the property says what they count): a difference is a broken correspondence
+        out.mismatch(f"ADWIN: after six updates (num_buckets, num_max_buckets) = {(int(d.num_buckets), int(d.num_max_buckets))}, proved for the model: (7, 6)",
                       {"class": "ADWIN", "kind": "theorem witness", "theorem": "C02d.adwin_max_lt_buckets_witness"})
     out.case({"theorem_witnesses": 2})
     for _ in range(2 if thorough else 1):
